@@ -157,7 +157,8 @@ static int mode_rel(unsigned long long seed, int n)
 		    m[i][j] = crnd();
 	    z[0] = 50.0 * (1.05 + rnd()) + I * 40.0 * rnd();
 	    z[1] = 75.0 * (1.05 + rnd()) + I * 60.0 * rnd();
-	    if (k % 3 == 0) { z[0] = 50.0; z[1] = 50.0; }
+	    if (k % 4 == 0) { z[0] = 50.0; z[1] = 50.0; }		/* equal real */
+	    if (k % 4 == 1) { z[1] = z[0]; }				/* equal complex */
 	    /* aliased and separate calls must agree bit for bit */
 	    cx tmp[2][2];
 	    memcpy(tmp, m, sizeof(tmp));
